@@ -794,10 +794,11 @@ namespace
     if (P == "C16") layer = "eval";
     if (P == "C17") layer = "L1";
     if (P == "C04" || P == "C05" || P == "C06" || P == "C19") layer = "L3";
-    if (P == "C03") layer = "L2";
+    if (P == "C03" && layer != "L2p") layer = "L2";
     p.planted = layer == "L3" ? true : (P == "C02" ? t.chance(1, 2) : t.chance(2, 3));
     Timelines tl;
     Rules rl;
+    Shared sh;
     std::vector<std::string> c03, c19;
     std::ostringstream xlog;
     g_c03_struct.clear();
@@ -816,6 +817,11 @@ namespace
         check_structure(s);
 #endif
       };
+    }
+    else if (layer == "L2p")
+    {
+      gen_shared(g, sh, rl);
+      g_after_solve = [&rl](ratio::solver &s) { read_atoms(s, rl); };
     }
     else if (layer == "eval")
     {
@@ -948,6 +954,7 @@ namespace
       }
       check_objects(p, out, c17);
       if (layer == "L3") check_timelines(p, tl, out, c04, c05, c06, c01, r);
+      if (layer == "L2p") check_shared(sh, out, c01, c03, r);
     }
     // C02 (c): semantically equivalent formulations get the same verdict
     if (P == "C02" && (layer == "L0" || layer == "L1") && out.verdict != REJECTED && std::hash<std::string>()(text + ctext) % 3 == 0)
@@ -1008,6 +1015,25 @@ namespace
       }
     }
     if (layer == "L1" || P == "C17") check_domains_after_read(p, out, c17);
+    // C17 metamorphic oracle: a satisfiable problem (witness / Z3) that is declared unsolvable, while the same problem with
+    // every field access through a multi-valued object variable written out per candidate instance is solved, isolates the
+    // field access as the culprit ("field access through such a variable denotes the field of whichever instance is chosen")
+    if (P == "C17" && out.verdict == UNSOLVABLE && !c02.empty() && !g_obj.expanded.empty())
+    {
+      g_after_solve = nullptr; g_on_solver = nullptr; g_on_solver_gone = nullptr;
+      std::string vt = ctext;
+      for (auto &e : g_obj.expanded)
+      {
+        auto at = vt.find(e.first);
+        if (at != std::string::npos) vt.replace(at, e.first.size(), e.second);
+      }
+      Problem dummy;
+      Outcome vo = run(dummy, text, vt);
+      r.counters["field_access_expansions_solved_instead"]++;
+      if (vo.verdict == SOLVED)
+        c17.push_back("the problem has a solution but is declared unsolvable (" + out.error + "), and the same problem with every field access through an object variable written out per candidate "
+                      "instance is solved: the field access does not denote the field of the chosen instance\n--- expanded second read() ---\n" + vt);
+    }
 
     auto own = [&](std::vector<std::string> &v) { for (auto &m : v) { if (!r.violation) { r.violation = true; r.message = m; } log << "!! " << m << "\n"; } };
     auto foreign = [&](std::vector<std::string> &v) { for (auto &m : v) { if (r.foreign.size() < 4) r.foreign.push_back(m); log << "(foreign) " << m << "\n"; } };
@@ -1023,7 +1049,7 @@ namespace
     for (auto &f : p.feats) r.classes.insert(f);
     r.classes.insert(out.verdict == SOLVED ? "verdict: solved" : out.verdict == UNSOLVABLE ? "verdict: unsolvable" : "verdict: rejected");
     r.classes.insert(p.planted ? "planted" : "free");
-    if (P == "C01" && layer == "L3") r.nontrivial = out.verdict == SOLVED && r.nontrivial;
+    if (P == "C01" && (layer == "L3" || layer == "L2p")) r.nontrivial = out.verdict == SOLVED && r.nontrivial;
     else if (P == "C01") r.nontrivial = out.verdict == SOLVED && (evaluated_mixed || p.feats.count("arithmetic disequality") || p.feats.count("disjunction statement") || !p.objvars.empty());
     else if (P == "C02") r.nontrivial = out.verdict == UNSOLVABLE || p.planted;
     else if (P == "C16") r.nontrivial = out.verdict == SOLVED && (p.feats.count("product with a non-constant factor") || p.feats.count("unary minus") || p.feats.count("division") || p.feats.count("boolean constant expression"));
